@@ -2,6 +2,7 @@
 pyhf patchset provides a user-friendly interface for interacting with patchsets.
 """
 
+import copy
 import logging
 import jsonpatch
 from pyhf import exceptions
@@ -58,6 +59,18 @@ class Patch(jsonpatch.JsonPatch):
     def values(self):
         """The values of the associated labels for the patch"""
         return tuple(self.metadata['values'])
+
+    def apply(self, obj, in_place=False):
+        """
+        Apply the patch to the given object.
+
+        jsonpatch inserts operation values into the document by reference, so
+        later operations of the same patch would modify the patch itself and a
+        second application would differ from the first: apply a copy instead.
+        """
+        return jsonpatch.JsonPatch(copy.deepcopy(self.patch)).apply(
+            obj, in_place=in_place
+        )
 
     def __repr__(self):
         """Representation of the object"""
